@@ -327,9 +327,9 @@ def ref_step(cls, d, pos, st):
         if op in ('append', 'iadd'): return ok(None, d + st['bs'], len(d) + len(st['bs']))
         if op == 'prepend': return ok(None, st['bs'] + d, 0)
         if op in ('insert', 'overwrite'):
-            if not st['bs']: return ok(None)
             p = pos if st['pos'] is None else st['pos']
-            d2 = (R.insert if op == 'insert' else R.overwrite)(d, st['bs'], p)
+            d2 = (R.insert if op == 'insert' else R.overwrite)(d, st['bs'], p)      # an invalid position raises for an empty operand too (D59)
+            if not st['bs']: return ok(None)
             p = p + len(d) if p < 0 else p
             return ok(None, d2, p + len(st['bs']))
         if op in ('setitem', 'delitem'):
